@@ -404,7 +404,7 @@ func (u *Unit) wf(s *State, t types.Type, v *Term) *Term {
 		return And(
 			Ge(w.SRef(v), IntLit(0)), Lt(w.SRef(v), s.Alloc),
 			Ge(w.SOff(v), IntLit(0)), Ge(w.SLen(v), IntLit(0)), Ge(w.SCap(v), w.SLen(v)),
-			Le(w.SCap(v), Leaf("4611686018427387904", "Int")), Le(w.SOff(v), Leaf("4611686018427387904", "Int")),
+			Le(w.SCap(v), maxElems(ut.Elem())), Le(Add(w.SOff(v), w.SCap(v)), maxElems(ut.Elem())),
 			Implies(Eq(w.SRef(v), IntLit(0)), And(Eq(w.SLen(v), IntLit(0)), Eq(w.SCap(v), IntLit(0)), Eq(w.SOff(v), IntLit(0)))))
 	case *types.Pointer, *types.Map, *types.Signature, *types.Chan:
 		return And(Ge(v, IntLit(0)), Lt(v, s.Alloc))
@@ -891,7 +891,7 @@ func (u *Unit) exec(s *State, f *Frame, in ssa.Instruction) []*State {
 	case *ssa.MakeSlice:
 		ln := u.toInt(u.term(s, u.val(s, f, x.Len)), x.Len.Type())
 		cp := u.toInt(u.term(s, u.val(s, f, x.Cap)), x.Cap.Type())
-		u.check(s, "make", in, "makeslice: len/cap out of range", And(Le(IntLit(0), ln), Le(ln, cp), Le(cp, Leaf("4611686018427387904", "Int"))))
+		u.check(s, "make", in, "makeslice: len/cap out of range", And(Le(IntLit(0), ln), Le(ln, cp), Le(cp, maxElems(x.Type().Underlying().(*types.Slice).Elem()))))
 		u.allocCheck(s, in, cp)
 		elem := x.Type().Underlying().(*types.Slice).Elem()
 		ref := u.allocRef(s)
@@ -1087,6 +1087,7 @@ func (u *Unit) wrapInt(s *State, in ssa.Instruction, t *Term, ty types.Type) *Te
 	}
 	if signed && bits == 64 {
 		if u.C != nil && u.C.OvfAssume || u.V.OvfAssume {
+			u.Assumed["machine arithmetic treated as mathematical in "+shortKey(fnKey(u.Fn))+" (`ovf assume`: signed 64-bit overflow not checked there)"] = true
 			return t
 		}
 		goal := And(Le(lo, t), Le(t, hi))
@@ -1845,4 +1846,16 @@ func (u *Unit) inFrame(s *State, key string, ref, idx *Term) *Term {
 
 func init() {
 	_ = sort.Strings
+}
+
+var amd64Sizes = types.SizesFor("gc", "amd64")
+
+// maxElems: the largest slice capacity the amd64 runtime can allocate for this element type
+// (maxAlloc = 2^47 bytes); zero-size elements are capped at 2^47 as well.
+func maxElems(elem types.Type) *Term {
+	sz := amd64Sizes.Sizeof(elem)
+	if sz <= 0 {
+		sz = 1
+	}
+	return IntLit((int64(1) << 47) / sz)
 }
